@@ -13,7 +13,7 @@ CLAIMED = {
              'windows (thorough: every day 1970-2037) and the real counterSpan is replayed on each at four times of day; random instants/contents observed '
              'on the real code are validated by TLC against the same operators (CalendarTrace); CalendarRot.tla (rotate/inc/upload behaviours, invariants and '
              'action properties checked exhaustively by TLC) is replayed step by step into a private counter file and the real uploader, comparing the decoded '
-             'telemetry directory with the model state after every step.',
+             'telemetry directory with the model state after every step. Whole rotations are also run under a clock that passes midnight UTC between two readings (the name must carry the recorded begin date).',
         note='Trusted: Go time package for day-number <-> civil date; the independent v1 decoder in harness/verifrt; one process with explicit rotate calls '
              '(the AfterFunc timer is not exercised); bounded horizon (16 days) for behaviours.',
         technique='TLA+ spec (Calendar/CalendarVec/CalendarRot/CalendarTrace) + TLC exhaustive enumeration and simulation; model->code replay and code->model trace validation',
@@ -50,7 +50,7 @@ CLAIMED['C01'] = _c(
     'Approval.tla states the configuration semantics (Expand of chart:{buckets}, build approval, counter/stack approval against the rate and X, per-build sums, UploadReport) from the property text. '
     'TLC checks nine sanity theorems on every enumerated vector (names incl. prefixes/suffixes/near-misses, rates x X x sample rate, builds, sums, shared counter/stack names) and a history machine for leftover reports; '
     'every vector is replayed through the real upload.Run (file module proxy for the config, chosen X via crypto/rand.Reader, harness-owned server) and request bodies, local and upload reports are compared as (build, name, value) triples; '
-    'random configurations/file sets observed on the real code are decided by TLC (ApprovalTrace).',
+    'random configurations/file sets observed on the real code are decided by TLC (ApprovalTrace). Random cases include pairs of different builds whose joined text is the same because a separator falls elsewhere (one approved, one not, same week).',
     'Rates and X are multiples of 1/8 (vectors) or 1/1024 (random) so float64 is exact; configs listing a name twice are outside the domain; weekly sums < 2^31; stack frames avoid the ditto form (C15).',
     'TLA+ relational spec + TLC enumeration; vector replay into the real uploader; TLC validation of observed (input, output) records', 'DESIGN.md §4 C01', 'approval')
 CLAIMED['C02'] = _c(
@@ -68,7 +68,7 @@ CLAIMED['C06'] = _c(
 CLAIMED['C07'] = _c(
     'Uploader.tla models uploader.Run at the granularity of its file-system/HTTP calls (findWork, reports with create-then-write, deletes, upload with lock/marker) for several uploaders, re-runs, late-arriving count files and kills. '
     'TLC checks OneLocalReport, ReadyMatchesLocal, DeleteOnlyAfterReport, ReportStable exhaustively and produces witness schedules into 13 race/kill windows; schedules, simulate walks and random schedules are executed on the real '
-    'instrumented uploader under the scheduler; TLC judges the C07 clauses on every observed directory state (UploaderObs) and validates each trace against the model (UploaderTrace).',
+    'instrumented uploader under the scheduler; TLC judges the C07 clauses on every observed directory state (UploaderObs) and validates each trace against the model (UploaderTrace). Families include one whose week has files that are not neighbours in directory order, and a week whose files are all empty (no report, files must stay).',
     '<= 3 uploaders, <= 2 weeks, <= 3 count files; config handed to the uploader directly; per-build grouping and sums are C01; calendar boundaries are C09; an active and an unreadable count file are present in a subset of runs and must stay untouched.',
     'TLA+ protocol spec + TLC exhaustive/simulate with kills; replay into instrumented real code; TLC trace validation and property evaluation on observed states', 'DESIGN.md §4 C07', 'uploader')
 CLAIMED['C08'] = _c(
@@ -79,7 +79,7 @@ CLAIMED['C08'] = _c(
 CLAIMED['C10'] = _c(
     'FileFormat.tla gives HeaderLen, Place (with PlaceRel/least-fit), the FNV-1a hash on 16-bit limbs and the layout invariants; FileFormatOps.tla is a state machine of create/add/reopen by two library writers and the independent writer '
     'with LayoutOK/Clauses/Exact/Monotone checked by TLC; place/hash/header vectors go into the real place/hash/mappedHeader, simulate walks are replayed on real files decoded after every step by the independent decoder, and random '
-    'operation runs are validated by TLC (FileFormatOpsTrace, FileFormatPlaceTrace).',
+    'operation runs are validated by TLC (FileFormatOpsTrace, FileFormatPlaceTrace). Single chains of 530-2100 colliding names over several pages are written by two library writers and judged by the independent decoder.',
     'Sequential operations (races are C04); a placement that satisfies the layout relation but differs from the documented allocator is only a divergence warning.',
     'TLA+ spec + TLC enumeration/simulate; replay into real code with an independent decoder/writer; TLC trace validation', 'DESIGN.md §4 C10', 'fileformat')
 CLAIMED['C11'] = _c(
@@ -116,7 +116,7 @@ CLAIMED['C17'] = _c(
     'TLA+ spec + TLC enumeration; replay into Parse/generate/padVersions; TLC validation', 'DESIGN.md §4 C17', 'chartconfig')
 CLAIMED['C18'] = _c(
     'Storage.tla: buckets as maps with Write/Read/List, ResultFromHistory, Confined, NoConflicts and frame properties checked exhaustively by TLC; simulate walks are replayed on real FSBuckets under six name alphabets comparing every '
-    'result and the complete file tree, random histories are validated by TLC (StorageTrace), and the names the upload/merge/chart services construct for hostile inputs are checked to stay inside their bucket.',
+    'result and the complete file tree, random histories are validated by TLC (StorageTrace), and the names the upload/merge/chart services construct for hostile inputs are checked to stay inside their bucket. Objects are written in three chunkings (halves; short head + long body + one byte; many 7-byte writes), with no Write call, and by Copy.',
     'FS backend, ASCII ordinary names; names conflicting by path prefix are excluded.',
     'TLA+ state machine + TLC exhaustive/simulate; replay into the real bucket; TLC trace validation', 'DESIGN.md §4 C18', 'storage')
 CLAIMED['C19'] = _c(
@@ -130,7 +130,7 @@ CLAIMED['C16'] = _c(
     'SidecarDecision.tla gives the Launch decision table (child-marker value x ReportCrashes x Upload x mode x token x local dir) and the clauses OnlyIfCalledFor, UploaderNeedsToken, NeverRecursive, OffIsInert, TokenOncePer24h; '
     'Sidecar.tla is the start-up protocol of a process tree with the upload-token race at Stat/Remove/OpenFile(O_EXCL) granularity, with NoGrandchild, NoChildWhenOff, ChildOnlyIfNeeded, AtMostOneAcquire checked exhaustively by TLC for 2-3 '
     '(thorough 4-5) starters and Termination under fairness. Every concretizable table row is replayed with real processes (a logging application calling telemetry.Start, a process-start log that also records children and grandchildren, '
-    'directory snapshots) and judged by TLC (SidecarRows); witness schedules into 35 race windows, simulate walks and an exhaustive DFS of all interleavings of the instrumented real acquireUploadToken are validated step by step (SidecarTrace).',
+    'directory snapshots) and judged by TLC (SidecarRows); witness schedules into 35 race windows, simulate walks and an exhaustive DFS of all interleavings of the instrumented real acquireUploadToken are validated step by step (SidecarTrace). Token-race rows also vary Config.UploadStartTime of every starter (the 24 hours are real time).',
     'Only the "only if" direction is a violation (a sidecar that is not launched is a divergence warning); 96 rows with an unusable local dir and a token are model-only; O_EXCL atomicity is the kernel\'s; with a stale token present several '
     'starters may acquire it (outside the property).',
     'TLA+ decision table + protocol spec + TLC exhaustive/liveness; real-process replay of table rows; scheduler replay and exhaustive DFS of the token race; TLC trace validation', 'DESIGN.md §4 C16, §10.7', 'sidecar')
@@ -139,7 +139,7 @@ CLAIMED['C05'] = _c(
     'Faults.tla is relational over the call sequences RECORDED from the current tree (open, first Add, growth, rotation, Read, files removed while in use, upload.Run in modes on/local/none): TLC enumerates every single and pairwise fault plan '
     '(call x errno) with the outcome class the documented failure semantics predict and checks eight sanity theorems; each plan is replayed through the fault hook on the instrumented real packages (no escaped panic, no memory fault, step '
     'budget, predicted park/persist class, other counters unchanged as read by the independent decoder) and decided by TLC (FaultsTrace). Corrupt.tla enumerates the damage classes of a counter file at rest (header, truncation, limit, heads, '
-    'name lengths, links incl. cycles) with the expected class; each file is written and opened/incremented by the real code under a hang/panic/fault guard and judged by TLC (CorruptTrace).',
+    'name lengths, links incl. cycles) with the expected class; each file is written and opened/incremented by the real code under a hang/panic/fault guard and judged by TLC (CorruptTrace). A scenario in which a second process grows the file through one hash bucket (re-map inside newCounter) is part of the fault-plan product.',
     'Single and pairwise faults over four errnos; one goroutine; the exec of `go mod download` is not a fault point; class mismatches that do not endanger safety are divergence warnings; known finding F23 (a corrupt limit of 0 / below linked '
     'records is accepted and later records overwrite existing ones).',
     'TLA+ relational specs over recorded call sequences and corruption classes + TLC enumeration; fault-plan / corrupt-file replay into instrumented real code; TLC validation', 'DESIGN.md §4 C05, §10.7', 'faults')
